@@ -7,11 +7,11 @@ IMPLEMENTED = sys.argv[1].split(",") if len(sys.argv) > 1 else []
 
 P = {
  "C01": ("random + enumerated histories; oracle = every call returns (overflow/debug checks on) + hang watchdog",
-         "Generated histories of every public operation over structured and raw input never panic in an overflow-checked build and never exceed the watchdog; this is exploration, not a termination proof.", "§4 C01"),
+         "Generated histories of every public operation over structured and raw input never panic in an overflow-checked build and never exceed the watchdog; cases built for recursion depth and allocation size run in child processes so that an abort is seen; this is exploration, not a termination proof.", "§4 C01"),
  "C02": ("invariant checked after every call over generated histories (raw + tracked by reference model)",
          "Geometry invariants are asserted after every single public call (incl. each feed()) of generated histories with resizes and buffer switches; wrap-pending legitimacy is decided by the one-step reference model on in-domain input.", "§4 C02"),
  "C03": ("exhaustive differential against an independent table-driven reference parser + metamorphic memorylessness",
-         "All 14 states x all Unicode scalar values (several backgrounds each) and the full dispatch table are compared exhaustively with a reference parser transcribed from the Williams diagram; sequence pairs/triples check memorylessness; random streams add depth.", "§4 C03"),
+         "All 14 states x all Unicode scalar values (several backgrounds each), the full dispatch table and strings of up to 100 000 characters are compared exhaustively with a reference parser transcribed from the Williams diagram; all ordered pairs of a 635-sequence basis check memorylessness; an end-to-end leg compares Vt::feed_str with Vt::feed; random streams add depth.", "§4 C03"),
  "C04": ("bounded-exhaustive + random model-based testing against a one-step reference spec with resynchronisation",
          "Every print-class step of enumerated tiny-screen op sequences and random histories is compared cell-for-cell (chars, pens, wrap marks, cursor) with an executable spec written from the statement.", "§4 C04"),
  "C05": ("bounded-exhaustive + random model-based testing against a one-step reference spec",
